@@ -614,7 +614,11 @@ func handleWorkerDeath(a *agg, pc *propCfg, id, tier string, seed uint64, bin, v
 	}
 	minPlan, minRes, _ := simkit.Minimize(plan, want, execSub, nil, 60, 4*time.Minute)
 	os.MkdirAll(simkit.ReplayDir(), 0755)
-	path := filepath.Join(simkit.ReplayDir(), fmt.Sprintf("%s-%d-%d.json", id, plan.Seed, plan.Index))
+	vtag := ""
+	if variant != "" {
+		vtag = "-" + variant
+	}
+	path := filepath.Join(simkit.ReplayDir(), fmt.Sprintf("%s%s-%d-%d.json", id, vtag, plan.Seed, plan.Index))
 	simkit.WriteJSON(path, &simkit.Replay{Plan: minPlan, Violation: want, LogHash: "process-died", OriginalSteps: len(plan.Steps), OriginalSeed: plan.Seed, BuildTags: variant,
 		EventLog: strings.Split(tail(err2, 40), "\n")})
 	_ = minRes
